@@ -3,6 +3,7 @@ import RaftProps.C14
 import RaftProps.C18
 import RaftProps.C19
 import RaftProofs.ProtoLStep
+import RaftProps.RN
 
 /-!
 # C20 — no panic or internal-check failure under contract-abiding use
@@ -76,5 +77,27 @@ theorem C20_append_never_conflicts_below_commit_obligation (s s' : P.PSys) (i : 
   · rename_i hg; exact ⟨hg.2.2.2.2.1, hg.2.2.2.2.2.2⟩
   · cases h
 
+
+/-! ### the `RawNode::step` filter and the repaired panic sites, on the executable node model -/
+
+/-- local message types are refused by `RawNode::step` (an error, not a panic) and change nothing -/
+theorem C20_rawnode_step_rejects_local (r : RaftModel.Raft) (m : RaftModel.Message)
+    (h : RaftModel.isLocalMsg m.msgType = true) :
+    RaftModel.RawNode.step r m = .ok (r, some .stepLocalMsg) :=
+  RaftProps.RN.rawnode_step_rejects_local r m h
+
+/-- a response from a peer the node has no `Progress` for is refused and changes nothing -/
+theorem C20_rawnode_step_rejects_unknown_peer (r : RaftModel.Raft) (m : RaftModel.Message)
+    (hl : RaftModel.isLocalMsg m.msgType = false) (hr : RaftModel.isResponseMsg m.msgType = true)
+    (hp : r.prs.get m.frm = none) :
+    RaftModel.RawNode.step r m = .ok (r, some .stepPeerNotFound) :=
+  RaftProps.RN.rawnode_step_rejects_unknown_peer r m hl hr hp
+
+/-- finding F13, repaired: a rejected pre-vote response is sent whatever its term (a node that has
+not seen any term yet no longer hits the "term should be set" fatal) -/
+theorem C20_prevote_reject_is_always_sent (r : RaftModel.Raft) (m' : RaftModel.Message)
+    (h1 : m'.msgType = .msgRequestPreVoteResponse) (h2 : m'.reject = true) :
+    r.send m' = .ok { r with msgs := r.msgs ++ [r.sendFill m'] } :=
+  RaftProps.RN.prevote_reject_is_always_sent r m' h1 h2
 
 end RaftProps.C20
